@@ -21,14 +21,14 @@ func (*otherTyped) Error() string { return "other-typed" }
 
 // etree is a generated error expression together with what was supplied.
 type etree struct {
-	err     error   // the value built by the library
-	leaves  []error // supplied non-nil constituents, in supply order
-	notes   []string
-	typed   []*typedErr
-	inners  []error // errors reachable only through single wrapping of a supplied constituent
-	desc    string
-	plain   bool // a single plain (non-aggregate) error
-	extras  int  // annotation / marker errors added by Wrap, Wrapf, ParsePanic
+	err    error   // the value built by the library
+	leaves []error // supplied non-nil constituents, in supply order
+	notes  []string
+	typed  []*typedErr
+	inners []error // errors reachable only through single wrapping of a supplied constituent
+	desc   string
+	plain  bool // a single plain (non-aggregate) error
+	extras int  // annotation / marker errors added by Wrap, Wrapf, ParsePanic
 }
 
 type egen struct{ next int }
